@@ -181,7 +181,12 @@ def run(chk: vlib.Check):
     if good:
         j = rng.randrange(len(good))
         chk.sample({"kind": "replay accepted by layer A", "ops": strip(replays[good[j]["id"]]["ops"]), "steps": good[j]["steps"]})
-    for sig, (rp, ob, why) in sorted(found.items()):
+    # listed (known) findings first, then the shortest unexplained histories (at most 5 lines of those)
+    ordered = sorted(found.items(), key=lambda kv: (kv[0].startswith("C20:unexplained"), len(kv[1][0]["ops"]), kv[0]))
+    unexplained = [kv for kv in ordered if kv[0].startswith("C20:unexplained")]
+    chk.cov["unexplained_rejected_histories"] = len(unexplained)
+    ordered = [kv for kv in ordered if not kv[0].startswith("C20:unexplained")] + unexplained[:5]
+    for sig, (rp, ob, why) in ordered:
         chk.sample({"kind": "history rejected by layer A", "signature": sig, "ops": strip(rp["ops"]), "last_step": ob["steps"][-1]}, limit=8)
         chk.violation(sig, f"{why} after {json.dumps(strip(rp['ops']))}",
                       {"engine": "watch", "ops": rp["ops"], "observed": ob["steps"], "layerB_deviations": rp["devs"]})
